@@ -21,11 +21,18 @@ CHECKS: dict[str, tuple[str, str, str, str]] = {
     ),
 }
 
+# checks reviewed by the coordinator (quiet on the unchanged tree at several seeds, mutants caught); only these are claimed
+ACCEPTED = ["C10", "C15", "C20"]
+
+LEVELS = {"C15": "fault_enumeration", "C20": "fault_enumeration"}
+
 PENDING_REASON = "check not built yet in this session (see DESIGN.md section 4); no claim is made until it is registered"
 
 
 def main() -> None:
     for f in sorted((VERIF / "vp" / "manifest.d").glob("*.json")):
+        if f.stem.upper() not in ACCEPTED:
+            continue
         d = json.loads(f.read_text())
         CHECKS[f.stem.upper()] = (d["technique"], d["text"], d["note"], d.get("design_ref", f"DESIGN.md 4/{f.stem.upper()}"))
     checks = []
@@ -39,7 +46,7 @@ def main() -> None:
                 "evidence_file": f"evidence/{pid}.json",
                 "replay_cmd_template": f"/venv/bin/python vp/run.py {pid} --replay {{path}}",
                 "engine": "vp-runner",
-                "level_claimed": {"category": "exploration", "text": text, "design_ref": ref},
+                "level_claimed": {"category": LEVELS.get(pid, "exploration"), "text": text, "design_ref": ref},
                 "level_note": note,
                 "technique": technique,
             }
